@@ -302,6 +302,36 @@ theorem outbound_at_path (k0 : String) (rest : List String) (c : Ctx) (pub : Dic
   · simp only [getPath_of_get?, hget]
     cases hgp : get? pub k0 <;> rfl
 
+/-- the rule of `merge_at_path` on one "cell" (leaf or nothing, version) -/
+def cellVal {α : Type} (oa : Option α) (na : Nat) (ob : Option α) (nb : Nat) : Option α :=
+  match ob with
+  | none => oa
+  | some y => match oa with
+    | none => some y
+    | some x => if nb > na then some y else some x
+
+/-- the cell rule is associative when "nothing" carries version 0: no tie hypothesis (under either
+    bracketing the leftmost leaf of maximal version wins) -/
+theorem cell_assoc {α : Type} (oa ob oc : Option α) (na nb nc : Nat)
+    (ha : oa = none → na = 0) (hb : ob = none → nb = 0) (hc : oc = none → nc = 0) :
+    cellVal (cellVal oa na ob nb) (max na nb) oc nc = cellVal oa na (cellVal ob nb oc nc) (max nb nc) := by
+  by_cases h1 : nb > na <;> by_cases h2 : nc > nb
+  all_goals
+    cases oa <;> cases ob <;> cases oc <;> simp only [cellVal, h1, h2, ↓reduceIte]
+  all_goals (try have ha := ha rfl) <;> (try have hb := hb rfl) <;> (try have hc := hc rfl)
+  all_goals first
+    | rfl
+    | (split <;> first | rfl | (exfalso; omega))
+    | (split <;> split <;> first | rfl | (exfalso; omega))
+
+theorem merge_at_path_cell (k0 : String) (rest : List String) (hk : k0 ≠ "__task_execution") (l r : Ctx)
+    (hl : ShapeOK k0 rest l) (hr : ShapeOK k0 rest r) :
+    getPath (mergeByVersion l r).data k0 rest =
+      cellVal (getPath l.data k0 rest) (ver l.vers (keyOf k0 rest)) (getPath r.data k0 rest)
+        (ver r.vers (keyOf k0 rest)) := by
+  rw [(merge_at_path k0 rest hk l r hl hr).2.2]
+  cases getPath r.data k0 rest <;> cases getPath l.data k0 rest <;> rfl
+
 /-! ### the fold over the parents -/
 
 theorem upstream_nil : upstream [] = ⟨[], []⟩ := rfl
